@@ -1,6 +1,7 @@
 package keys
 
 import (
+	"fmt"
 	"sync"
 
 	"filippo.io/age"
@@ -36,6 +37,32 @@ func (u *Unknown) Wrap(fileKey []byte) ([]*age.Stanza, error) {
 	return out, nil
 }
 
+type refusedRecipient struct{ err error }
+
+func (r refusedRecipient) Wrap([]byte) ([]*age.Stanza, error) { return nil, r.err }
+
+type refusedIdentity struct{ err error }
+
+func (r refusedIdentity) Unwrap([]*age.Stanza) ([]byte, error) { return nil, r.err }
+
+func safeRecipient(name string, f func() age.Recipient) (out age.Recipient) {
+	defer func() {
+		if p := recover(); p != nil {
+			out = refusedRecipient{fmt.Errorf("verif: the library refused fixture key %s as a recipient: %v", name, p)}
+		}
+	}()
+	return f()
+}
+
+func safeIdentity(name string, f func() age.Identity) (out age.Identity) {
+	defer func() {
+		if p := recover(); p != nil {
+			out = refusedIdentity{fmt.Errorf("verif: the library refused fixture key %s as an identity: %v", name, p)}
+		}
+	}()
+	return f()
+}
+
 var (
 	worldOnce sync.Once
 	worldMu   sync.Mutex
@@ -56,9 +83,15 @@ func buildWorld() {
 		world[n] = &Party{Name: n, Kind: 'E', Recipient: e.Recipient(), Identity: e.Identity(), Ref: e.Ref}
 	}
 	// R4 is a 2500-bit key: its modulus length is not a multiple of 8 bits
-	for i, n := range []string{"R1", "R2", "R3", "R4"} {
-		r := LoadRSA([]string{"rsa1", "rsa2", "rsa3", "rsa2500"}[i])
-		world[n] = &Party{Name: n, Kind: 'R', Recipient: r.Recipient(), Identity: r.Identity(), Ref: r.Ref}
+	// R5 and R6 have small public exponents (35, as OpenSSH before 5.4 made
+	// them, and 3)
+	for i, n := range []string{"R1", "R2", "R3", "R4", "R5", "R6"} {
+		r := LoadRSA([]string{"rsa1", "rsa2", "rsa3", "rsa2500", "rsa_e35", "rsa_e3"}[i])
+		p := &Party{Name: n, Kind: 'R', Ref: r.Ref}
+		// a tree under test that refuses a fixture key must show up as a
+		// refusal in the monitors, not as a crash while the world is built
+		p.Recipient, p.Identity = safeRecipient(n, r.Recipient), safeIdentity(n, r.Identity)
+		world[n] = p
 	}
 	for _, n := range []string{"S1", "S2"} {
 		pass := "passphrase-" + n
@@ -85,7 +118,7 @@ func buildWorld() {
 		{Type: "long-args", Args: []string{string(long), "tail"}, Body: make([]byte, 100)}}}}
 }
 
-// P returns the named party: X1..X4, E1..E3, R1..R4, S1, S2, U0..U4, and
+// P returns the named party: X1..X4, E1..E3, R1..R6, S1, S2, U0..U4, and
 // XN<anything>: further native parties made on demand (for very long lists).
 func P(name string) *Party {
 	worldOnce.Do(buildWorld)
